@@ -14,6 +14,7 @@ the real code by the harness (deterministic witness cases 0–3).
 import LinVerif.Lemmas.C12Layout
 import LinVerif.Lemmas.C12TopN
 import LinVerif.Lemmas.C12Inter
+import LinVerif.Lemmas.C12Variant
 import LinVerif.Generated.C12
 
 namespace LinVerif.Props.C12
@@ -230,6 +231,141 @@ theorem partition_invariance_intermediate_partial (sp0 : List Spec) (cap : Nat) 
       exact hpart.filter _
     exact e2.trans ((hτ.flatMap_right _).trans (split_perm r hr (fun ts => h ts.tags) its))
   exact hnaive.perm hs hdata
+
+/-! ### the same for every variant of the code (in particular the repaired one) -/
+
+/-- a node's answer under variant `v` -/
+def respV (v : Variant) (cap : Nat) : Node → Resp
+  | .leaf L => .ok (leafPayload v L.specs cap L.its)
+  | .absent => .notFound
+
+theorem wellKinded_of_perm {sp0 : List Spec} {a b : List TS} (h : a.Perm b) (hw : WellKinded sp0 b) :
+    WellKinded sp0 a := fun ts hts => hw ts (h.mem_iff.mp hts)
+
+theorem wellKinded_leaf (sp0 : List Spec) (ns : List Node) (its : List TS)
+    (hpart : ((leavesOf ns).flatMap (·.its)).Perm its) (hw : WellKinded sp0 its)
+    (L : LeafIn) (hL : L ∈ leavesOf ns) : WellKinded sp0 L.its :=
+  fun ts hts => hw ts (hpart.mem_iff.mp (List.mem_flatMap.mpr ⟨L, hL, hts⟩))
+
+/-- in the covered region the two switches of `Variant` are irrelevant: the answers of the nodes
+and the root's whole context are the same under every variant as under `Variant.code`.
+Additional hypothesis: the per-series results are marshalled with their field's kind byte (what
+the down-sampling aggregators produce). -/
+theorem variant_irrelevant (v : Variant) (sp0 : List Spec) (cap : Nat) (hs : Simple sp0) (its : List TS)
+    (ns : List Node) (hOK : ∀ L ∈ leavesOf ns, L.OK sp0)
+    (hpart : ((leavesOf ns).flatMap (·.its)).Perm its) (hw : WellKinded sp0 its) :
+    (Ctx.new ns.length).handleAll v (ns.map (respV v cap)) =
+      (Ctx.new ns.length).handleAll .code (ns.map (Node.resp cap)) := by
+  have hmap : ns.map (respV v cap) = ns.map (Node.resp cap) := by
+    apply List.map_congr_left
+    intro n hn
+    cases n with
+    | absent => rfl
+    | leaf L =>
+      have hL : L ∈ leavesOf ns := List.mem_filterMap.mpr ⟨_, hn, rfl⟩
+      simp only [respV, Node.resp, LeafIn.resp]
+      rw [leafPayload_variant v sp0 L.specs hs (hOK L hL).equiv cap L.its (wellKinded_leaf sp0 ns its hpart hw L hL)]
+  rw [hmap]
+  apply handleAll_variant v sp0 hs
+  · intro a ha; cases ha
+  · intro r hr
+    obtain ⟨n, hn, rfl⟩ := List.mem_map.mp hr
+    cases n with
+    | absent => trivial
+    | leaf L =>
+      have hL : L ∈ leavesOf ns := List.mem_filterMap.mpr ⟨_, hn, rfl⟩
+      refine ⟨(hOK L hL).equiv, ?_⟩
+      show WellKinded sp0 (leafPayload .code L.specs cap L.its).series
+      rw [leafPayload_series]
+      exact wellKinded_emit sp0 _ (by rw [aggregateAll_specs]; exact (hOK L hL).equiv)
+        (by rw [aggregateAll_specs]; exact (hOK L hL).nodup)
+
+/-- `partition_invariance_partial` for every variant of the code -/
+theorem partition_invariance_partial_any_variant (v : Variant) (sp0 : List Spec) (cap : Nat) (hs : Simple sp0)
+    (its : List TS) (ns : List Node) (hOK : ∀ L ∈ leavesOf ns, L.OK sp0) (hne : leavesOf ns ≠ [])
+    (hpart : ((leavesOf ns).flatMap (·.its)).Perm its) (hw : WellKinded sp0 its) :
+    let c := (Ctx.new ns.length).handleAll v (ns.map (respV v cap))
+    c.done = true ∧ c.err = none ∧ c.hdrCap = cap ∧ ∃ A, c.agg = some A ∧ IsNaive sp0 cap its A := by
+  intro c
+  have : c = (Ctx.new ns.length).handleAll .code (ns.map (Node.resp cap)) :=
+    variant_irrelevant v sp0 cap hs its ns hOK hpart hw
+  rw [this]
+  exact partition_invariance_partial sp0 cap hs its ns hOK hne hpart
+
+/-- what node `n` sends to receiver `j` under variant `v` -/
+def respToV (v : Variant) (h : Tag → Nat) (r cap j : Nat) : Node → Resp
+  | .leaf L => .ok (share h r j (leafPayload v L.specs cap L.its))
+  | .absent => .notFound
+
+def interCtxV (v : Variant) (h : Tag → Nat) (r cap j : Nat) (nsj : List Node) : Ctx :=
+  (Ctx.new nsj.length).handleAll v (nsj.map (respToV v h r cap j))
+
+theorem interCtx_variant (v : Variant) (sp0 : List Spec) (cap : Nat) (hs : Simple sp0) (h : Tag → Nat) (r j : Nat)
+    (nsj : List Node) (hOK : ∀ L ∈ leavesOf nsj, L.OK sp0)
+    (hw : ∀ L ∈ leavesOf nsj, WellKinded sp0 L.its) :
+    interCtxV v h r cap j nsj = interCtx h r cap j nsj := by
+  unfold interCtxV interCtx
+  have hmap : nsj.map (respToV v h r cap j) = nsj.map (Node.respTo h r cap j) := by
+    apply List.map_congr_left
+    intro n hn
+    cases n with
+    | absent => rfl
+    | leaf L =>
+      have hL : L ∈ leavesOf nsj := List.mem_filterMap.mpr ⟨_, hn, rfl⟩
+      simp only [respToV, Node.respTo]
+      rw [leafPayload_variant v sp0 L.specs hs (hOK L hL).equiv cap L.its (hw L hL)]
+  rw [hmap]
+  apply handleAll_variant v sp0 hs
+  · intro a ha; cases ha
+  · intro x hx
+    obtain ⟨n, hn, rfl⟩ := List.mem_map.mp hx
+    cases n with
+    | absent => trivial
+    | leaf L =>
+      have hL : L ∈ leavesOf nsj := List.mem_filterMap.mpr ⟨_, hn, rfl⟩
+      refine ⟨(hOK L hL).equiv, ?_⟩
+      show WellKinded sp0 ((leafPayload .code L.specs cap L.its).series.filter _)
+      rw [leafPayload_series]
+      intro ts hts
+      exact wellKinded_emit sp0 _ (by rw [aggregateAll_specs]; exact (hOK L hL).equiv)
+        (by rw [aggregateAll_specs]; exact (hOK L hL).nodup) ts (List.mem_filter.mp hts).1
+
+/-- `partition_invariance_intermediate_partial` for every variant of the code -/
+theorem partition_invariance_intermediate_partial_any_variant (v : Variant) (sp0 : List Spec) (cap : Nat)
+    (hs : Simple sp0) (its : List TS) (h : Tag → Nat) (r : Nat) (hr : 0 < r)
+    (ns : List Node) (hOK : ∀ L ∈ leavesOf ns, L.OK sp0) (hne : leavesOf ns ≠ [])
+    (hpart : ((leavesOf ns).flatMap (·.its)).Perm its) (hw : WellKinded sp0 its)
+    (sched : Nat → List Node) (hsched : ∀ j, j < r → (sched j).Perm ns)
+    (τ : List Nat) (hτ : τ.Perm (List.range r)) :
+    let c := (Ctx.new τ.length).handleAll v (τ.map (fun j => (interCtxV v h r cap j (sched j)).taskResponse))
+    c.done = true ∧ c.err = none ∧ c.hdrCap = cap ∧ ∃ A, c.agg = some A ∧ IsNaive sp0 cap its A := by
+  intro c
+  have hjr : ∀ j ∈ τ, j < r := fun j hj => List.mem_range.mp (hτ.mem_iff.mp hj)
+  have hOKj : ∀ j ∈ τ, ∀ L ∈ leavesOf (sched j), L.OK sp0 := fun j hj L hL =>
+    hOK L ((leavesOf_perm (hsched j (hjr j hj))).mem_iff.mp hL)
+  have hwj : ∀ j ∈ τ, ∀ L ∈ leavesOf (sched j), WellKinded sp0 L.its := fun j hj L hL =>
+    wellKinded_leaf sp0 ns its hpart hw L ((leavesOf_perm (hsched j (hjr j hj))).mem_iff.mp hL)
+  have hmap : τ.map (fun j => (interCtxV v h r cap j (sched j)).taskResponse) =
+      τ.map (fun j => (interCtx h r cap j (sched j)).taskResponse) := by
+    apply List.map_congr_left
+    intro j hj
+    rw [interCtx_variant v sp0 cap hs h r j (sched j) (hOKj j hj) (hwj j hj)]
+  have hc : c = (Ctx.new τ.length).handleAll .code (τ.map (fun j => (interCtx h r cap j (sched j)).taskResponse)) := by
+    show (Ctx.new τ.length).handleAll v _ = _
+    rw [hmap]
+    apply handleAll_variant v sp0 hs
+    · intro a ha; cases ha
+    · intro x hx
+      obtain ⟨j, hj, rfl⟩ := List.mem_map.mp hx
+      obtain ⟨s, hs1, -⟩ := inter_naive sp0 cap hs h r j (sched j) (hOKj j hj) (by
+        intro e
+        have := leavesOf_perm (hsched j (hjr j hj))
+        rw [e] at this
+        exact hne (List.perm_nil.mp this.symm))
+      rw [hs1]
+      exact ⟨s.equiv, wellKinded_emit sp0 _ s.S.naive.specs_equiv s.S.nodup⟩
+  rw [hc]
+  exact partition_invariance_intermediate_partial sp0 cap hs its h r hr ns hOK hne hpart sched hsched τ hτ
 
 /-! ## 3. not-found tolerance and nodes without data -/
 
@@ -692,12 +828,23 @@ end Example
 
 /-! ## 8. ties to the regenerated facts (`lvh extract` re-reads /repo's source on every run) -/
 
-open LinVerif.Generated.C12 in
-/-- the variant of `handleResponse` / `fieldAggregator.Aggregate` the source currently has is the
-one the theorems above call `Variant.code` (if a repair lands, this obligation fails by name and
-the `Neg` witnesses are due for removal) -/
-theorem generated_variant_is_code :
-    (⟨mergesLaterSpecs, crossFeeds⟩ : Variant) = Variant.code := by decide
+/-- the variant of `handleResponse` / `fieldAggregator.Aggregate` that /repo's source has NOW
+(the model driver runs this one) -/
+def currentVariant : Variant := ⟨Generated.C12.mergesLaterSpecs, Generated.C12.crossFeeds⟩
+
+/-- whatever the source currently is, the partial theorems cover it … -/
+theorem current_variant_partial :
+    type_of% (partition_invariance_partial_any_variant currentVariant) :=
+  partition_invariance_partial_any_variant currentVariant
+
+theorem current_variant_intermediate_partial :
+    type_of% (partition_invariance_intermediate_partial_any_variant currentVariant) :=
+  partition_invariance_intermediate_partial_any_variant currentVariant
+
+/-- … and while it is `Variant.code` the full-strength statement is false of it (the harness's
+witness cases say whether the real code still behaves so). -/
+theorem current_variant_findings (h : currentVariant = Variant.code) : ¬ FullStatement currentVariant :=
+  h ▸ Neg.full_statement_false
 
 open LinVerif.Generated.C12 in
 theorem generated_first_response_rule :
